@@ -298,7 +298,7 @@ def run_property(pid, tier, keep=False, seed=0):
         import kani as K
         kunits = K.harness_units(pid)
         need_cex = bool(violations)
-        if kunits and (tier == 'thorough' or need_cex):
+        if kunits and (tier == 'thorough' or (need_cex and not os.environ.get('VERIF_NO_KANI_CEX'))):
             kani_res = K.run_units(kunits, pid, REPO, only_failed_units=None)
             for kr in kani_res:
                 if kr['status'] == 'undecided':
